@@ -5,6 +5,8 @@
    output <hasInfNan> <outOfRange> -> `W <warnings>`
    time <deb> <rwMode> <yearMode> nO nH nF tO tH tF -> `ok` / `error ValueError`
    timep <deb> <rwMode> <yearMode> nO nH nF tO tH tF -> the same with partial time information (`-` = array not given)
+   class <desc> <desc> <desc> -> TypeError | ValueError | accepted (the contract as a decision, `specClass`)
+   consumes-from-sites <deb> <rwMode> <yearMode> -> the same three flags computed from the table of check sites
    outaxis <deb> -> the series whose time axis the result has (obs | cm_future) and 1 iff both dispatch paths use it
    consumes <deb> <rwMode> <yearMode> -> three 0/1 flags
 -/
@@ -73,6 +75,12 @@ def step (line : String) : String :=
       | some d, some r, some y, some nO, some nH, some nF, some tO, some tH, some tF =>
           (match timeOutcomeP d ⟨r, y⟩ nO nH nF tO tH tF with | .ok _ => "ok" | .error e => "error " ++ e)
       | _, _, _, _, _, _, _, _, _ => "bad-op"
+  | ["class", a, b, c] => match desc? a, desc? b, desc? c with
+      | some a, some b, some c => (match specClass (a, b, c) with | .typeError => "TypeError" | .valueError => "ValueError" | .accepted => "accepted")
+      | _, _, _ => "bad-op"
+  | ["consumes-from-sites", d, r, y] => match Deb.ofClassName d, bool? r, bool? y with
+      | some d, some r, some y => let (a, b, c) := checkedFromSites timeSites applyLocationOwner d ⟨r, y⟩; showB a ++ showB b ++ showB c
+      | _, _, _ => "bad-op"
   | ["outaxis", d] => match Deb.ofClassName d with
       | some d => axisName (outputAxis d) ++ " " ++ (if dispatchAxesOk applyShapes d then "1" else "0")
       | none => "bad-op"
